@@ -1,6 +1,6 @@
 (* C05 - Quake 1/2/3 status replies yield all variables and players. *)
 From GD Require Import Base.Prelude Model.Strings Model.StrOps Model.Buffer Model.Net Model.Valve Model.Quake Spec.QuakeSpec.
-From GD Require Import Proofs.BufferLemmas Proofs.Msafe Proofs.QuakeTotal Proofs.QuakeRoundtrip.
+From GD Require Import Proofs.BufferLemmas Proofs.Msafe Proofs.QuakeTotal Proofs.QuakeRoundtrip Proofs.QuakeQuery Spec.Rand.
 
 (* every player line a conforming server sends (numeric fields over their full
    ranges, names quoted - possibly with spaces - or bare, optional address)
@@ -35,6 +35,29 @@ Theorem c05_quake_total : forall port v t u tc sf, settings_ok t ->
   safe (fst (client_query port v t (net_init u tc sf))).
 Proof. exact quake_total. Qed.
 Print Assumptions c05_quake_total.
+
+(* ---- the whole query ----
+   wf_qstate: variable names and values are UTF-8 without backslash, newline and NUL, names pairwise
+   distinct; every player line is well-formed for the version. quake_expected st = Some r: the server
+   sends a host name, a map and a maximum (a u8 in decimal) under one of their spellings; r takes each
+   from the first spelling present, lists every player, and keeps as unused entries every variable that
+   was not used - the second spelling of a variable included. *)
+Theorem c05_wf_qstate_means : forall v st,
+  wf_qstate v st = (forallb (fun kv => var_text (fst kv) && var_text (snd kv)) (qs_vars st) && nodup_keys (qs_vars st)
+                    && wf_lines v (qs_quoted st) (qs_players st)).
+Proof. exact (fun v st => eq_refl). Qed.
+Print Assumptions c05_wf_qstate_means.
+Theorem c05_query_returns_the_state : forall port v st r, wf_qstate v st = true -> quake_expected st = Some r ->
+  (length (quake_reply v st) <= 1024)%nat ->
+  fst (client_query port v None (net_init [Datagram (quake_reply v st)] [] [])) = Ok r.
+Proof. exact quake_query_roundtrip. Qed.
+Print Assumptions c05_query_returns_the_state.
+Example c05_wf_nonvacuous :
+  forallb (fun seed => let st := fst (gen_qstate Q3 seed) in wf_qstate Q3 st && match quake_expected st with Some _ => true | None => false end) [1; 2; 3; 4; 5; 6] = true
+  /\ existsb (fun seed => let st := fst (gen_qstate Q1 seed) in
+                wf_qstate Q1 st && match var_value (str "hostname") (qs_vars st), var_value (str "sv_hostname") (qs_vars st) with Some _, Some _ => true | _, _ => false end)
+             (map (fun i => 7919 * N.of_nat i + 13) (seq 1 40)) = true.
+Proof. vm_compute. split; reflexivity. Qed.
 
 (* non-vacuity, end to end on a concrete Quake 2 server *)
 Example c05_ex :
